@@ -574,6 +574,38 @@ def meth_calls_in(path, names):
     return out
 
 
+def one_shot_state(ctx, rule, cname):
+    """A field the constructor fills with a ONE-SHOT iterator (generator expression, map/filter/zip object, generator call) and that a method reads later:
+    the first use exhausts it, every later use (a second iteration of the clock, a second query of the universe) sees nothing."""
+    from .symex import _single_use
+    from .terms import fmt
+    c = ctx.M.cls(cname)
+    if c is None or c.lookup('__init__') is None:
+        return
+    ps = summarise(ctx, cname + '.__init__', policy=default_policy)
+    for p in normal(ps):
+        for loc, v in p.heap.items():
+            if not (loc[0] == 'attr' and loc[1] == V('self')):
+                continue
+            gen_call = v[0] == 'call' and v[1][0] == 'fn' and any(g.qn == q for q in v[1][1].split('|') for g in ctx.M.all_funcs()) and \
+                all(_is_gen_fn(ctx.M, q) for q in v[1][1].split('|'))
+            if not (_single_use(v) or gen_call):
+                continue
+            readers = [(fn, n) for fn, n in reads_of_attr(ctx.M, loc[2]) if fn.cls is not None and c in fn.cls.mro() + ctx.M.subclasses(fn.cls) and fn.name != '__init__']
+            if readers:
+                fn, n = readers[0]
+                ctx.violation(rule, '%s.%s holds a reusable collection (it is read by %s on every call)' % (cname, loc[2], fn.qn), fn.site(n),
+                              'the constructor stores a one-shot iterator (%s): its first consumer exhausts it, later calls see nothing' % fmt(v)[:80],
+                              key='%s|one-shot|%s.%s' % (rule, cname, loc[2]))
+    ctx.holds(rule, 'no field of %s holds a one-shot iterator that methods consume' % cname, None)
+
+
+def _is_gen_fn(M, qn):
+    from .symex import _is_generator
+    f = M.funcs.get(qn) or next((g for g in M.all_funcs() if g.qn == qn), None)
+    return f is not None and _is_generator(f)
+
+
 def private_closure(M, roots, same_class=True):
     """the given functions plus the private helpers (of the same class; or, with same_class=False, also private module-level functions)
     that are called only from them (transitively)"""
